@@ -221,6 +221,9 @@ def build_rules(R, ro):
             # (d) methods
             for pm_name, pm in pc.methods.items():
                 meth = c.methods.get(pm_name)
+                if meth is None and pm_name in m.inlined.get(cname, ()):
+                    R.ok("C01.BUILD", "%s:%d" % (m.pxd_path.split("/")[-1], pm.line), "%s.%s is a new private helper, analysed inlined at its call sites" % (cname, pm_name))
+                    continue
                 R.check(meth is not None, "C01.BUILD", "%s.%s:method" % (c.qualname, pm_name), "%s:%d" % (m.pxd_path.split("/")[-1], pm.line),
                         "%s.%s declared in the .pxd is defined in the .py" % (cname, pm_name), "the .pxd declares %s.%s, which the .py does not define" % (cname, pm_name))
                 if meth is None:
@@ -232,6 +235,8 @@ def build_rules(R, ro):
                         "%s.%s takes %d parameters in the .py but %d in the .pxd" % (cname, pm_name, npy, len(pm.params)))
         for fname, pf in m.pxd.functions.items():
             f = m.functions.get(fname)
+            if f is None and fname in m.inlined.get(None, ()):
+                continue
             R.check(f is not None, "C01.BUILD", "%s.%s:function" % (mname, fname), "%s:%d" % (m.pxd_path.split("/")[-1], pf.line),
                     "%s.%s declared in the .pxd is defined in the .py" % (mname, fname), "the .pxd declares %s.%s, which the .py does not define" % (mname, fname))
     # (c) cdef-only methods are not called from modules that are not compiled
